@@ -23,6 +23,7 @@
 import DymVerif.Lemmas.CoreLiveness
 import DymVerif.Lemmas.GenEqArith
 import DymVerif.Lemmas.CoreLevFork
+import DymVerif.Lemmas.CorePunish
 namespace DymVerif.C08
 open DymVerif DymVerif.Core DymVerif.Core.LevNs
 
@@ -356,6 +357,19 @@ theorem active_never_slashed (p : Params) (ops : List Op) (f : List (Nat × Nat)
   exact ⟨fun hm => hne ((event_fires_iff p ops ra r hg).1 hm), this.1, this.2⟩
 
 -- ================================================================ non-vacuity and boundary witnesses
+
+/-- **a zero-bond proposer is never slashed, only dishonored** — the proposer of a rollapp whose bond is
+    0 (a standalone `PunishSequencerProposal` leaves the punished proposer in place with bond 0, see
+    `C07.punish_keeps_roles`): the liveness slash never fails on it, moves no money at all (balances,
+    module account and burn counter unchanged) and only adds the liveness dishonor to its record; every
+    other record is unchanged.  So an idle zero-bond proposer collects dishonor on the ordinary
+    schedule until it can be kicked. -/
+theorem zero_bond_proposer_only_dishonored (s : St) (r : Rollapp) (a : Addr) (q : Seq) (hp : r.proposer = some a)
+    (hg : getSeq s a = some q) (hz : q.tokens = 0) :
+    ∃ s1, slashLiveness s r = .ok s1 ∧ s1.ras = s.ras ∧ s1.bal = s.bal ∧ s1.modBal = s.modBal ∧
+      s1.burned = s.burned ∧
+      s1.seqs = s.seqs.map (fun x => if x.addr == a then { q with dishonor := q.dishonor + s.p.dishonorL } else x) :=
+  slashLiveness_zero_bond s r a q hp hg hz
 
 def exParams : Params where
   dispute := 2
